@@ -39,6 +39,9 @@ CHECKS = {
  "C11": dict(engine="vsim", technique="runtime monitoring: twin-run differential (never-restarted vs restarted-at-chosen-positions instance on a copy of the same SQLite file, fed the same events) comparing result class and complete fingerprint after every step",
    text="Exploration: on N twin segments the SQLite-backed subject's database is copied at a quiescent point (own pending commits, own Created messages, queued state inside); the copy is replayed with several restart sets (before every delivery, singletons, random subsets, after every applied commit) and must agree with the never-restarted twin on result class and full fingerprint after every delivery.",
    note="Clean shutdown only; wall-clock values (processed_at) are not compared and rumor timestamps are kept distinct so that the display order does not depend on them.", ref="5/C11"),
+ "C12": dict(engine="vcrash", category="fault_enumeration", technique="runtime fault injection: child process killed with abort() at every storage statement boundary (tick hook H2) of 7 operation templates on a copy of the database, parent re-opens, checks loadability, re-delivers and compares with the uninterrupted twin; in-process error/panic injection at every labelled point inside the snapshot and restore transactions",
+   text="Fault enumeration: every storage tick of every template instance (application message, proposal, commit, commit-with-rollback, process+accept welcome, create_message, self_update+merge) is used as a death point; after re-opening the database must open, every group must load, and re-delivery of the interrupted and all later events must end in the uninterrupted twin's fingerprint (receiver operations) or the operation must be recoverable with a peer following (own operations); injected errors and panics inside the two explicit transactions must leave group and snapshot set exactly as before.",
+   note="Death = abort() before the statement at the cut executes; torn pages / power loss are SQLite's journal's business and out of scope; own operations are judged by recoverability, not by twin equality.", ref="5/C12"),
  "C16": dict(engine="vsim+adversary", technique="runtime monitoring: invitation workload (valid welcome re-processed under same/fresh wrapper ids in every welcome state, accept/decline, forged welcomes built with OpenMLS by member/inviter/outsider) with before/after fingerprints of every group, stored-welcome comparison, joiner-vs-inviter state comparison and liveness probes of the existing group",
    text="Exploration: on N invitation sequences: re-processing returns the same stored welcome and changes nothing; no group is Active without accept_welcome; after accept the joiner's MLS state, members, group data, relays and mirrored record equal the inviter's post-commit state with self-update Required; no invitation changes an Active group's fingerprint and that group still processes its next message and commit; a stored welcome is never replaced.",
    note="wrapper_event_id of the stored welcome is not compared across wrapper ids; forged welcomes come from a throw-away OpenMLS group (MlsGroup::new_with_group_id) with hand-encoded group-data extension bytes.", ref="5/C16"),
@@ -82,6 +85,7 @@ def main():
         },
         "engines": [
             {"name": "vstore", "path": "/verif/harness/src/vstore", "serves_properties": ["C09", "C10", "C18", "C19"], "kind_free_text": "storage-level operation language, generator, interpreter over real backends, full read-out, executable reference model"},
+            {"name": "vcrash", "path": "/verif/harness/src/props/c12.rs", "serves_properties": ["C12"], "kind_free_text": "crash-point child process (abort at the k-th storage tick) + parent orchestrator + in-process transaction fault injection"},
             {"name": "vsim", "path": "/verif/harness/src/sim", "serves_properties": ["C01", "C02", "C03", "C04", "C05", "C06", "C07", "C08", "C11", "C16", "C18", "C20"], "kind_free_text": "world simulator: N real MDK clients (memory / SQLite), relay log, harness-chosen delivery schedules, pinned wrapper timestamps, oracle replica, per-step monitors"},
         ],
         "checks": checks,
